@@ -318,6 +318,26 @@ func (u *UnitGen) execInstr(fr *Frame, st *State, instr ssa.Instruction) {
 			}
 		}
 		u.set(st, "G:spawned", App(SInt, "+", u.get(st, "G:spawned", SInt), IntN(1)))
+		// which function value was spawned, and its first argument when that is a reference
+		fnT, a0 := IntN(-1), IntN(0)
+		switch in.Call.Value.(type) {
+		case *ssa.Function, *ssa.MakeClosure, *ssa.Builtin:
+		default:
+			if !in.Call.IsInvoke() {
+				if t, ok := fr.vals[in.Call.Value]; ok && t.Sort == SInt {
+					fnT = t
+				} else if t := u.val(fr, st, in.Call.Value); t.Sort == SInt {
+					fnT = t
+				}
+			}
+		}
+		if len(in.Call.Args) > 0 {
+			if t, ok := fr.vals[in.Call.Args[0]]; ok && t.Sort == SInt {
+				a0 = t
+			}
+		}
+		u.set(st, "G:spawnedFn", fnT)
+		u.set(st, "G:spawnedArg0", a0)
 	case *ssa.Send:
 		ch := u.val(fr, st, in.Chan)
 		x := u.val(fr, st, in.X)
